@@ -88,6 +88,14 @@ fn stream(name: &str) -> Vec<u8> {
             v.extend(rc::message(&msg_of(11, &[1, 8192, 8191])));
             v.extend(rc::message(&msg_of(12, &[40000])));
         }
+        "s_huge" => {
+            // frames well beyond 64 KiB with more frames / messages right behind them
+            v.extend(rc::ready(b"PUSH", None));
+            v.extend(rc::message(&msg_of(20, &[70_000, 4])));
+            v.extend(rc::message(&msg_of(21, &[5])));
+            v.extend(rc::message(&msg_of(22, &[1, 131_073, 0, 66_000])));
+            v.extend(rc::message(&msg_of(23, &[2])));
+        }
         "s_open" => {
             // ends inside a multipart message and inside a frame
             v.extend(rc::ready(b"PUSH", None));
@@ -100,7 +108,7 @@ fn stream(name: &str) -> Vec<u8> {
     v
 }
 
-const CODEC_STREAMS: [&str; 6] = ["s_short", "s_props", "s_noprops", "s_256", "s_big", "s_open"];
+const CODEC_STREAMS: [&str; 7] = ["s_short", "s_props", "s_noprops", "s_256", "s_big", "s_huge", "s_open"];
 
 // ------------------------------------------------------- codec-level oracle
 
@@ -306,6 +314,23 @@ fn codec_strides(ctx: &mut Ctx, name: &str, seed: u64, randoms: usize) {
     let sb = stream(name);
     let Some(base) = baseline(ctx, name, &sb, true) else { return };
     let mut count = 0u64;
+    // cuts right around every item end (the read that carries a frame's tail may or may
+    // not carry what follows)
+    let ends = rc::decode_stream(&sb, true).ends;
+    for e in ends {
+        for d in [-1i64, 0, 1, 2, 9] {
+            let c = e as i64 + d;
+            if c <= 0 || c as usize >= sb.len() {
+                continue;
+            }
+            let got = decode_with_cuts(&sb, &[c as usize]);
+            count += 1;
+            ctx.count("cuts_around_item_ends");
+            if !compare(ctx, "cut-near-item-end", &base, &got, || json!({"kind": "codec_cuts", "stream": name, "cuts": [c]})) {
+                return;
+            }
+        }
+    }
     for stride in [1usize, 2, 3, 7, 64, 8191, 8192, 8193] {
         let cuts: Vec<usize> = (1..).map(|i| i * stride).take_while(|c| *c < sb.len()).collect();
         let got = decode_with_cuts(&sb, &cuts);
